@@ -410,6 +410,7 @@ pub fn typed_grid() -> Vec<DataType> {
         Decimal128(38, 0),
         Decimal128(38, 38),
         Decimal128(10, 2),
+        Decimal128(10, -2),
         Decimal256(76, 0),
         Decimal256(76, 38),
         Date32,
@@ -867,16 +868,29 @@ pub fn build_blocks(ctx: &Ctx) -> Vec<Block> {
         push("str-1x1", 1, vec![f_first.clone()]);
         push("str-0rows", 0, vec![a0_first.clone(), a0_rest.clone()]);
         if thorough {
-            // pairs over the full alphabet up to 2 deviations, smaller alphabets at 3
+            // pairs over the full alphabet at <= 1 deviation, full x a1 at 2, a1 x a1 at 3
+            match ndev {
+                0 | 1 => {
+                    push("str-1x2", 1, vec![f_first.clone(), f_rest.clone()]);
+                    push("str-2x1", 2, vec![f_first.clone()]);
+                }
+                2 => {
+                    push("str-1x2", 1, vec![f_first.clone(), a1_rest.clone()]);
+                    push("str-1x2", 1, vec![a1_first.clone(), f_rest.clone()]);
+                    push("str-2x1", 2, vec![a1_first.clone()]);
+                }
+                _ => {
+                    push("str-1x2", 1, vec![a1_first.clone(), a1_rest.clone()]);
+                    push("str-2x1", 2, vec![a1_first.clone()]);
+                }
+            }
             if ndev <= 2 {
-                push("str-1x2", 1, vec![f_first.clone(), f_rest.clone()]);
-                push("str-2x1", 2, vec![f_first.clone()]);
                 push("str-1x3", 1, vec![a1_first.clone(), a1_rest.clone(), a1_rest.clone()]);
                 push("str-3x1", 3, vec![a1_first.clone()]);
                 push("str-2x2", 2, vec![a0_first.clone(), a0_rest.clone()]);
             } else {
-                push("str-1x2", 1, vec![a1_first.clone(), a1_rest.clone()]);
-                push("str-2x1", 2, vec![a1_first.clone()]);
+                push("str-1x3", 1, vec![a0_first.clone(), a0_rest.clone(), a0_rest.clone()]);
+                push("str-3x1", 3, vec![a0_first.clone()]);
                 push("str-2x2", 2, vec![a00_first.clone(), a00_rest.clone()]);
             }
         } else {
@@ -1147,6 +1161,10 @@ fn written_text(min: &Case, v: &V) -> Option<String> {
 /// Triaged root causes get one semantic fingerprint each; decided on the case itself (no shrinking
 /// needed, which keeps a defect that hits several hundred thousand cases cheap).
 pub fn known_root_cause(c: &Case) -> Option<&'static str> {
+    if c.types.iter().any(|t| matches!(t, DataType::Decimal32(_, s) | DataType::Decimal64(_, s) | DataType::Decimal128(_, s) | DataType::Decimal256(_, s) if *s < 0)) {
+        // arrow_cast::parse::parse_decimal treats a negative scale like scale 0
+        return Some("c17:decimal-negative-scale:parse_decimal-ignores-negative-scale");
+    }
     if let Some(e) = c.opts.esc {
         let in_cells = c.cols.iter().flatten().filter_map(|v| written_text(c, v)).any(|t| t.as_bytes().contains(&e));
         let in_header = c.opts.header && field_names(&c.opts, c.types.len()).iter().any(|n| n.as_bytes().contains(&e));
